@@ -399,11 +399,10 @@ Proof.
     + match goal with |- (let* r := ?root in _) = _ -> _ => destruct root as [r|] eqn:Er; [|discriminate] end.
       cbn [bind]. intros H. assert (bs = false :: r) by congruence. subst bs.
       cbn [app]. unfold rbind at 1. cbn [read_bit]. apply Hroot. reflexivity.
-    + unfold enc_len_single. destruct (n <? 16384) eqn:El; [|discriminate]. cbn [bind]. intros H.
-      assert (bs = true :: enc_len_short n ++ bytes_to_bits bytes) by congruence. subst bs.
-      cbn [app]. unfold rbind at 1. cbn [read_bit]. unfold rbind. rewrite <- app_assoc.
-      rewrite read_len_short by (unfold n; lia).
-      replace (Z.to_nat n) with (length bytes) by (unfold n; lia). rewrite read_bytes_rt. reflexivity.
+    + destruct (enc_frag (frag_fuel bytes) (fun b => Ok (to_bits 8 b)) bytes) as [r|] eqn:Ef; [|discriminate].
+      cbn [bind]. intros H. assert (bs = true :: r) by congruence. subst bs.
+      cbn [app]. unfold rbind at 1. cbn [read_bit]. unfold rbind.
+      rewrite (read_frag_auto_rt _ _ _ RT_byte _ _ _ _ Ef). reflexivity.
   - intros H. apply Hroot. exact H.
 Qed.
 
@@ -808,13 +807,10 @@ Section CompositeRT.
       + match goal with |- (let* r := ?root in _) = _ -> _ => destruct root as [r|] eqn:Er; [|discriminate] end.
         cbn [bind]. intros H. assert (bs = false :: r) by congruence. subst bs.
         cbn [app]. unfold rbind at 1. cbn [read_bit]. apply Hroot. reflexivity.
-      + unfold enc_len_single. destruct (n <? 16384) eqn:El; [|discriminate]. cbn [bind].
-        destruct (enc_all (encT elem) vs) as [body|] eqn:Eb; [|discriminate]. cbn [bind]. intros H.
-        assert (bs = true :: enc_len_short n ++ body) by congruence. subst bs.
-        cbn [app]. unfold rbind at 1. cbn [read_bit]. unfold rbind. rewrite <- app_assoc.
-        rewrite read_len_short by (unfold n; lia).
-        replace (Z.to_nat n) with (length vs) by (unfold n; lia).
-        rewrite (read_n_rt _ _ _ (RT_elem elem) _ _ _ Eb). reflexivity.
+      + destruct (enc_frag (frag_fuel vs) (encT elem) vs) as [r|] eqn:Ef; [|discriminate].
+        cbn [bind]. intros H. assert (bs = true :: r) by congruence. subst bs.
+        cbn [app]. unfold rbind at 1. cbn [read_bit]. unfold rbind.
+        rewrite (read_frag_auto_rt _ _ _ (RT_elem elem) _ _ _ _ Ef). reflexivity.
     - intros H. apply Hroot. exact H.
   Qed.
 
